@@ -5,6 +5,7 @@ chunks; kind io = I/O error / dropped connection, status = 5xx or 429 response, 
 import asyncio
 import inspect
 import io
+import zlib
 import os
 from pathlib import Path
 
@@ -184,6 +185,7 @@ def run_remote(adapter, op, script, payload, persistent=None):
                    'exists': lambda r: r.method == 'HEAD', 'delete': lambda r: r.url.path.endswith('b2_hide_file'), 'list': lambda r: r.url.path.endswith('b2_list_file_names')}[op]
         visible = fake.visible
     fake.plan = _plan(script, is_data, payload, persistent)
+    fake.drop_phase = zlib.crc32(repr((adapter, op, script, persistent)).encode())      # which transport error a drop shows up as: rotates with the case
     fake.op_limit = 200
     out = {'ok': True, 'exact': True, 'calls': 0, 'runaway': False, 'nopartial': True, 'etype': '~'}
 
